@@ -178,7 +178,8 @@ def coq_makefile():
 
 
 def coq_closure(vfile):
-    """All .v files (relative to coq/) that `vfile` transitively depends on, itself included."""
+    """All .v files (relative to coq/) that `vfile` transitively depends on, itself included.
+    Computed with coqdep (authoritative), never with a regex over Require lines."""
     seen = set()
     todo = [vfile]
     while todo:
@@ -186,22 +187,15 @@ def coq_closure(vfile):
         if f in seen:
             continue
         seen.add(f)
-        src = open(os.path.join(COQ, f)).read()
-        src = re.sub(r"\(\*.*?\*\)", " ", src, flags=re.S)
-        for m in re.finditer(r"(?:From\s+CB\s+)?Require\s+(?:Import\s+|Export\s+)?([^.]*(?:\.[A-Za-z_][^.\s]*)*)\s*\.", src):
-            stmt = m.group(0)
-            frm = stmt.startswith("From")
-            for name in re.findall(r"[A-Za-z_][A-Za-z0-9_']*(?:\.[A-Za-z_][A-Za-z0-9_']*)*", m.group(1)):
-                if name in ("Import", "Export"):
-                    continue
-                parts = name.split(".")
-                if parts[0] == "CB":
-                    parts = parts[1:]
-                elif not frm:
-                    continue
-                cand = "/".join(parts) + ".v"
-                if os.path.exists(os.path.join(COQ, cand)):
-                    todo.append(cand)
+        rc, out = sh(["coqdep", "-Q", ".", "CB", f], cwd=COQ, timeout=120)
+        for line in out.split("\n"):
+            if ":" not in line or not line.split(":")[0].strip().startswith(f[:-2] + ".vo"):
+                continue
+            for dep in line.split(":", 1)[1].split():
+                if dep.endswith(".vo") and not dep.startswith("/"):
+                    cand = dep[:-1]
+                    if cand != f and os.path.exists(os.path.join(COQ, cand)):
+                        todo.append(cand)
     return sorted(seen)
 
 
@@ -308,7 +302,7 @@ def extract_build(ctx, extract_v, driver_ml, name, timeout=1800):
     ctx.notes.setdefault("extraction_directives", []).append({extract_v: extra or "ExtrOcamlBasic only"})
     rc, out = sh("ulimit -v 24000000; flock -w 1800 %s timeout -k 5 1500 sh -c 'make -k -j16 %s && cd %s && coqc -noglob -Q %s CB -w none %s'" % (
         os.path.join(CACHE, "coq.lock"),
-        " ".join(f[:-2] + ".vo" for f in coq_closure("Run/" + extract_v) if f != "Run/" + extract_v),
+        " ".join(f[:-2] + ".vo" for f in coq_closure("Run/" + extract_v) if f != "Run/" + extract_v) or "NO_TARGETS_FOUND",
         d, COQ, os.path.join(COQ, "Run", extract_v)), cwd=COQ, timeout=timeout)
     if rc != 0:
         return False, out[-3000:]
